@@ -22,17 +22,19 @@ theorem ite_env_self (c : Prop) [Decidable c] (a b : Env) :
     (if c then a else b).self = if c then a.self else b.self := by split <;> rfl
 theorem ite_env_args (c : Prop) [Decidable c] (a b : Env) :
     (if c then a else b).args = if c then a.args else b.args := by split <;> rfl
+theorem ite_env_strict (c : Prop) [Decidable c] (a b : Env) :
+    (if c then a else b).strict = if c then a.strict else b.strict := by split <;> rfl
 theorem ite_fun_apply {α β} (c : Prop) [Decidable c] (f g : α → β) (x : α) :
     (if c then f else g) x = if c then f x else g x := by split <;> rfl
 
 /-- Proves `Restores c_<name>` for a generated class: symbolic execution of the three statement lists,
 then extensionality on the store and case analysis on the (finitely many) guards. -/
 macro "settings_restores" d:ident : tactic => `(tactic| (
-  intro σ args
+  intro σ args strict
   simp only [$d:ident, execAll, Stmt.exec, Expr.eval, setF_apply, List.contains_cons, List.contains_nil,
     Nat.reduceEqDiff, ↓reduceIte, if_true, if_false, ite_fst, ite_snd, ite_env_store, ite_env_self,
-    ite_env_args, ite_self, ite_fun_apply, Bool.false_eq_true]
-  refine ⟨?_, fun _ => ⟨?_, ?_, ?_⟩⟩ <;>
+    ite_env_args, ite_env_strict, ite_self, ite_fun_apply, Bool.false_eq_true]
+  refine ⟨?_, fun _ => ⟨fun _ => ?_, fun _ => ⟨?_, ?_⟩⟩⟩ <;>
   first
     | rfl
     | grind
@@ -42,7 +44,7 @@ macro "settings_restores" d:ident : tactic => `(tactic| (
 macro "settings_entered" d:ident : tactic => `(tactic| (
   simp only [enteredStore, $d:ident, execAll, Stmt.exec, Expr.eval, setF_apply, setS_apply, List.contains_cons,
     List.contains_nil, Nat.reduceEqDiff, ↓reduceIte, if_true, if_false, ite_fst, ite_snd, ite_env_store,
-    ite_env_self, ite_env_args, ite_self, ite_fun_apply, Bool.false_eq_true, Option.map_some, Option.map_none,
+    ite_env_self, ite_env_args, ite_env_strict, ite_self, ite_fun_apply, Bool.false_eq_true, Option.map_some, Option.map_none,
     and_self, and_true, and_false] at *
   try (first | rfl | grind | (simp_all; try simp [setS_apply]))))
 
